@@ -35,6 +35,8 @@ def cms_grid(rng, randomise):
         {"kind": "linear", "width": w, "depth": d},
         {"kind": "linear", "width": w + 1, "depth": d},
         {"kind": "linear", "width": w, "depth": d + 1},
+        {"kind": "linear", "width": w + 256, "depth": d},
+        {"kind": "linear", "width": w + 2**16, "depth": d},
     ]
     for kind, mc, nr in (("log16", mc16, nr16), ("log8", mc8, nr8)):
         base = {"kind": kind, "width": w, "depth": d, "max_count": mc, "num_reserved": nr}
@@ -46,6 +48,13 @@ def cms_grid(rng, randomise):
         g.append(dict(base, max_count=10**5))
         g.append(dict(base, num_reserved=nr + 1))
         g.append(dict(base, num_reserved=nr + 5))
+        # differences that vanish when a parameter is squeezed through a narrower integer type
+        if kind == "log16":
+            g.append(dict(base, num_reserved=nr + 256))
+            g.append(dict(base, num_reserved=nr + 512))
+        g.append(dict(base, max_count=mc + 2**16))
+        g.append(dict(base, width=w + 256))
+        g.append(dict(base, depth=d + 256))
     return g
 
 
@@ -59,6 +68,8 @@ def hll_grid(rng, randomise):
         {"kind": "hll", "p": p, "seed": sd + 1},
         {"kind": "hll", "p": p, "seed": sd + 2**32},  # differs only above bit 32
         {"kind": "hll", "p": p, "seed": sd + 2**63},
+        {"kind": "hll", "p": p, "seed": sd + 256},
+        {"kind": "hll", "p": p, "seed": sd + 2**16},
         {"kind": "hll", "p": p, "seed": 2**64 - 1},
     ]
 
@@ -74,6 +85,8 @@ def hh_grid(rng, randomise):
         dict(base, depth=d + 1),
         dict(base, max_key_len=L + 1),
         dict(base, max_key_len=max(1, L - 1) if L > 1 else 3),
+        dict(base, width=w + 256),
+        dict(base, depth=d + 256),
         dict(base, phi=0.013),  # phi is not merge-relevant: must merge with base
     ]
 
